@@ -118,16 +118,18 @@ impl<Codec> Sender<Codec> {
     /// Polls to complete any pending connect or send operations.
     fn poll_complete(&mut self, cx: &mut Context<'_>) -> Poll<io::Result<()>> {
         if let Some(future) = &mut self.connecting {
-            let (bin_sender, chunk_size) = ready!(future.poll(cx))?;
+            let res = ready!(future.poll(cx));
+            self.connecting = None;
+            let (bin_sender, chunk_size) = res?;
             self.chunk_size = Some(chunk_size);
             *self.bin_sender.lock().unwrap() = Some(bin_sender);
-            self.connecting = None;
         }
 
         if let Some(future) = &mut self.sending {
-            let (bin_sender, _bytes_sent) = ready!(future.poll(cx))?;
-            *self.bin_sender.lock().unwrap() = Some(bin_sender);
+            let res = ready!(future.poll(cx));
             self.sending = None;
+            let (bin_sender, _bytes_sent) = res?;
+            *self.bin_sender.lock().unwrap() = Some(bin_sender);
         }
 
         Poll::Ready(Ok(()))
